@@ -347,6 +347,27 @@ func H_TB_rec(t *verifrt.T) {
 		cur.Next = &vtRec{V: int(smallInt(t, "v")), Tail: "t"}
 		cur = cur.Next
 	}
+	if t.Param("PROP") == 8 && t.Choice("very-deep", 2) == 1 {
+		// acyclic values nested beyond the depth at which cycle detection starts (1000 frames):
+		// a recursive struct list and nested []interface{}; encoding must still succeed
+		const n = 1003
+		if t.Choice("deep-kind", 2) == 0 {
+			l := &vtList{V: 1}
+			for i := 0; i < n; i++ {
+				l = &vtList{V: 2, Next: l}
+			}
+			out, err := Marshal(l)
+			t.Assert("very-deep-acyclic-list-encodes", verifrt.And(err == nil, len(out) > 2*n))
+		} else {
+			var v interface{} = 1
+			for i := 0; i < n; i++ {
+				v = []interface{}{v}
+			}
+			out, err := Marshal(v)
+			t.Assert("very-deep-acyclic-nesting-encodes", verifrt.And(err == nil, len(out) == 2*n+1))
+		}
+		return
+	}
 	if t.Param("PROP") == 8 && t.Choice("cyclic", 2) == 1 {
 		// a cyclic value must produce an error, not a crash or an endless run
 		cur.Next = head
